@@ -103,16 +103,29 @@ pub fn run_concurrent(args: &[&str]) -> String {
         .collect();
     let pool = Arc::new(pool);
     let pool2 = Arc::clone(&pool);
-    let work = move |t: usize, intern: &mut dyn FnMut(&str) -> TokenKey| -> Vec<(usize, u32)> {
+    // every thread resolves a key as soon as it has got it (a key that was handed out must resolve at once, whatever the
+    // other threads are doing), and also interns strings of its own that no other thread knows
+    let fails = Arc::new(std::sync::atomic::AtomicUsize::new(0));
+    let fails2 = Arc::clone(&fails);
+    let work = move |t: usize, intern: &mut dyn FnMut(&str) -> (TokenKey, Option<String>)| -> Vec<(usize, u32)> {
         let pool = &pool2;
         let mut x = seed.wrapping_mul(6364136223846793005).wrapping_add(t as u64 * 1442695040888963407 + 1);
         let mut got = Vec::new();
-        for _ in 0..(nstr * 3) {
+        for j in 0..(nstr * 3) {
             x ^= x << 13;
             x ^= x >> 7;
             x ^= x << 17;
             let i = (x % nstr as u64) as usize;
-            got.push((i, intern(&pool[i]).into_u32()));
+            let (k, now) = intern(&pool[i]);
+            if now.as_deref() != Some(pool[i].as_str()) {
+                fails2.fetch_add(1, std::sync::atomic::Ordering::SeqCst);
+            }
+            got.push((i, k.into_u32()));
+            let own = format!("own-{t}-{j}-{seed}");
+            let (_, now) = intern(&own);
+            if now.as_deref() != Some(own.as_str()) {
+                fails2.fetch_add(1, std::sync::atomic::Ordering::SeqCst);
+            }
         }
         got
     };
@@ -125,7 +138,12 @@ pub fn run_concurrent(args: &[&str]) -> String {
                 .map(|t| {
                     let mut mine = Arc::clone(&shared);
                     let work = work.clone();
-                    std::thread::spawn(move || work(t, &mut |s| mine.get_or_intern(s)))
+                    std::thread::spawn(move || {
+                        work(t, &mut |s| {
+                            let k = mine.get_or_intern(s);
+                            (k, mine.try_resolve(k).map(|r| r.to_string()))
+                        })
+                    })
                 })
                 .collect();
             for h in hs {
@@ -139,7 +157,12 @@ pub fn run_concurrent(args: &[&str]) -> String {
                 .map(|t| {
                     let mine = Arc::clone(&shared);
                     let work = work.clone();
-                    std::thread::spawn(move || work(t, &mut |s| (&mut &*mine).get_or_intern(s)))
+                    std::thread::spawn(move || {
+                        work(t, &mut |s| {
+                            let k = (&mut &*mine).get_or_intern(s);
+                            (k, Resolver::<TokenKey>::try_resolve(&*mine, k).map(|r| r.to_string()))
+                        })
+                    })
                 })
                 .collect();
             for h in hs {
@@ -173,6 +196,10 @@ pub fn run_concurrent(args: &[&str]) -> String {
                 }
             }
         }
+    }
+    let f = fails.load(std::sync::atomic::Ordering::SeqCst);
+    if f > 0 {
+        return format!("{f} keys did not resolve to their string right after they were handed out");
     }
     "ok".to_string()
 }
